@@ -438,6 +438,9 @@ type PathQuery struct {
 	// NonNil / IsNil: values assumed non-nil / nil on every path (e.g. "with an observer").
 	NonNil []ssa.Value
 	IsNil  []ssa.Value
+	// Assume: branch outcomes known to hold where the search starts (the case of a block reached through a
+	// disjunction that the caller is looking at, GuardCases). A condition recomputed on the way is forgotten as usual.
+	Assume []Guard
 }
 
 // FindPath returns a witness path (rendered blocks) or nil when no feasible path exists.
@@ -565,6 +568,11 @@ func FindPath(p *Prog, q PathQuery) []string {
 	}
 	for _, v := range q.IsNil {
 		env[v] = envVal{known: true, isNil: true}
+	}
+	if !q.FlagBlind {
+		for _, g := range q.Assume {
+			env.assume(g.Cond, g.True)
+		}
 	}
 	switch {
 	case q.StartAfter != nil:
